@@ -1,58 +1,6 @@
-// C07: proof of work and required difficulty. Real code: pow.cpp, arith_uint256.cpp (+ chain.cpp for CBlockIndex::GetAncestor).
-// Oracles: ref/compact_ref.h (byte-array model of the compact encoding, from the documentation comment) and
-// ref/wide_ref.h (division-free 384-bit arithmetic: quotients are specified by q*d <= n < (q+1)*d).
-#include <verif.h>
-#include <compact_ref.h>
-#include <wide_ref.h>
-#include <pow.h>
-#include <arith_uint256.h>
-#include <uint256.h>
-#include <chain.h>
-#include <primitives/block.h>
-#include <consensus/params.h>
-#include <climits>
-
-// ---- chain constants: extracted from kernel/chainparams.cpp by spec.py on every run, passed as CH<i>_* macros; CHAIN selects one
-#ifndef CHAIN
-#define CHAIN 0
-#endif
-#define CAT3_(a, b, c) a##b##c
-#define CAT3(a, b, c) CAT3_(a, b, c)
-#define CP(x) CAT3(CH, CHAIN, x)
-static constexpr uint256 POW_LIMIT{CP(_LIMIT)};
-static constexpr int64_t TSPAN = CP(_TIMESPAN);
-#ifdef SPACING_OVERRIDE                      // retarget interval shrunk for harnesses that need a real block-index chain (stated in bounds)
-static constexpr int64_t SPACING = SPACING_OVERRIDE;
-#else
-static constexpr int64_t SPACING = CP(_SPACING);
-#endif
-static constexpr bool ALLOW_MIN = CP(_ALLOWMIN);
-static constexpr bool NO_RETARGET = CP(_NORETARGET);
-#ifndef BIP94
-#define BIP94 CP(_BIP94)
-#endif
-
-static Consensus::Params make_params()
-{
-    Consensus::Params p;
-    p.powLimit = POW_LIMIT;
-    p.nPowTargetTimespan = TSPAN;
-    p.nPowTargetSpacing = SPACING;
-    p.fPowAllowMinDifficultyBlocks = ALLOW_MIN;
-    p.fPowNoRetargeting = NO_RETARGET;
-    p.enforce_BIP94 = BIP94;
-    return p;
-}
-
-static void limit_bytes(uint8_t out[32]) { for (int i = 0; i < 32; i++) out[i] = POW_LIMIT.data()[i]; }   // uint256 stores little endian
-
-static bool same_bytes(const arith_uint256& a, const uint8_t b[32])
-{
-    const uint256 u = ArithToUint256(a);
-    bool eq = true;
-    for (int i = 0; i < 32; i++) if (u.data()[i] != b[i]) eq = false;
-    return eq;
-}
+// C07: proof of work and required difficulty. Real code: pow.cpp, arith_uint256.cpp. This file: compact codec and CheckProofOfWorkImpl, no stubs.
+// Oracle: ref/compact_ref.h (byte-array model of the compact encoding, written from the documentation comment).
+#include "c07_common.h"
 
 // ------------------------------------------------------------------------------------------------------------------
 // (1a) SetCompact for every 32-bit nBits: value (mod 2^256), negative and overflow flags equal the reference decode;
@@ -144,145 +92,3 @@ extern "C" void h_checkpow()
     VREACH("end");
 }
 
-// ------------------------------------------------------------------------------------------------------------------
-// (3) retargeting. Case split: the compact exponent EXP of the previous target is concrete, its 23-bit mantissa symbolic.
-#ifndef EXP
-#define EXP 0x1d
-#endif
-static constexpr int64_t IV = TSPAN / SPACING;          // difficulty adjustment interval (blocks)
-
-// previous target: any encoding with exponent EXP whose value is in (0, powLimit]
-static uint32_t draw_old_nbits(W* value)
-{
-    const uint32_t m = (uint32_t)nondet_range(0, 0x7fffff);
-    const uint32_t nbits = ((uint32_t)EXP << 24) | m;
-    const RefTarget t = ref_decode_compact(nbits);
-    uint8_t lim[32]; limit_bytes(lim);
-    VASSUME(!t.overflow && !ref_is_zero256(t.b) && ref_cmp256(t.b, lim) <= 0);
-    *value = w_le_bytes32(t.b);
-    return nbits;
-}
-
-// "got is the canonical compact encoding of min(floor(N/d), powLimit)", without dividing
-static bool is_compact_of_clamped_quotient(const W& N, uint64_t d, uint32_t got)
-{
-    uint8_t lim[32]; limit_bytes(lim);
-    const W L = w_le_bytes32(lim);
-    const W dL1 = w_mul64(w_add(L, w_u64(1)), d);
-    if (w_le(dL1, N)) return got == ref_encode_compact(lim, false);     // floor(N/d) > L  <=>  N >= d*(L+1)
-    if (w_lt(N, w_u64(d))) return got == 0;                             // quotient 0
-    int n = 0;                                                          // byte length: smallest n with Q < 2^(8n-1)  <=>  N < d*2^(8n-1);  Q <= L < 2^256 -> n <= 33
-    for (int k = 1; k <= 33; k++) if (n == 0 && w_lt(N, w_shl(w_u64(d), 8 * k - 1))) n = k;
-    const uint32_t gn = got >> 24, gm = got & 0x007fffffu;
-    if ((got & 0x00800000u) != 0 || (int)gn != n) return false;
-    bool ok = false;
-    for (int k = 1; k <= 33; k++) if (k == n) {
-        if (k >= 3) {                                                   // mantissa = floor(Q / 256^(k-3)):  gm*d*256^(k-3) <= N < (gm+1)*d*256^(k-3)
-            const W lo = w_shl(w_mul64(w_u64(gm), d), 8 * (k - 3));
-            const W hi = w_shl(w_mul64(w_u64((uint64_t)gm + 1), d), 8 * (k - 3));
-            ok = w_le(lo, N) && w_lt(N, hi);
-        } else {                                                        // mantissa = Q * 256^(3-k)
-            const uint32_t q = gm >> (8 * (3 - k));
-            ok = (q << (8 * (3 - k))) == gm && w_le(w_mul64(w_u64(q), d), N) && w_lt(N, w_mul64(w_u64((uint64_t)q + 1), d));
-        }
-    }
-    return ok;
-}
-
-static void config_checks()
-{
-    uint8_t lim[32]; limit_bytes(lim);
-    const W L = w_le_bytes32(lim);
-    VASSERT(TSPAN > 0 && SPACING > 0 && TSPAN % SPACING == 0 && TSPAN % 4 == 0 && TSPAN * 4 <= 0xffffffffLL, "chain constants: timespan positive, multiple of spacing and of 4, 4*timespan fits the 32-bit multiplier");
-    if (!NO_RETARGET) VASSERT(w_lt(w_mul64(L, (uint64_t)TSPAN * 4), w_shl(w_u64(1), 256)), "chain constants: powLimit * 4 * timespan < 2^256 (retarget product cannot wrap)");
-}
-
-// CalculateNextWorkRequired = compact(min(old * clamp(last - first, T/4, 4T) / T, powLimit)); the result passes PermittedDifficultyTransition
-extern "C" void h_retarget()
-{
-    config_checks();
-    const Consensus::Params p = make_params();
-    W oldv;
-    const uint32_t old_nbits = draw_old_nbits(&oldv);
-    const uint32_t t_last = nondet_u32(), t_first = nondet_u32();
-#if BIP94
-    static_assert(IV >= 2 && IV <= 8, "BIP94 variant needs a real chain of one retarget period: shrink the interval with SPACING_OVERRIDE");
-    CBlockIndex blk[IV];
-    for (int i = 0; i < IV; i++) {
-        blk[i].nHeight = i; blk[i].pprev = i ? &blk[i - 1] : nullptr; blk[i].BuildSkip();
-        blk[i].nBits = i == 0 ? old_nbits : nondet_u32();     // BIP94: only the first block of the period counts; the others are arbitrary
-        blk[i].nTime = nondet_u32();
-    }
-    CBlockIndex& last = blk[IV - 1];
-    last.nTime = t_last;
-    const uint32_t prev_nbits = last.nBits;
-#else
-    CBlockIndex last;
-    last.nHeight = (int)nondet_range(0, INT_MAX);
-    last.nBits = old_nbits; last.nTime = t_last;
-    const uint32_t prev_nbits = old_nbits;
-#endif
-    const uint32_t got = CalculateNextWorkRequired(&last, (int64_t)t_first, p);
-    verif_observe(got);
-    if (NO_RETARGET) {
-        VASSERT(got == prev_nbits, "no-retargeting chain: required bits = previous bits");
-    } else {
-        int64_t ts = (int64_t)t_last - (int64_t)t_first;
-        if (ts < TSPAN / 4) ts = TSPAN / 4;
-        if (ts > TSPAN * 4) ts = TSPAN * 4;
-        const W N = w_mul64(oldv, (uint64_t)ts);
-        VASSERT(is_compact_of_clamped_quotient(N, (uint64_t)TSPAN, got), "required bits = compact(min(old * clamp(timespan, T/4, 4T) / T, powLimit))");
-        uint8_t lim[32]; limit_bytes(lim);
-        VWITNESS(got == ref_encode_compact(lim, false), "result clamped to / equal to powLimit");
-        VWITNESS(got != ref_encode_compact(lim, false) && got != prev_nbits, "result differs from previous bits and from the limit");
-        VWITNESS(ts == TSPAN / 4 && (int64_t)t_last - (int64_t)t_first < 0, "negative actual timespan clamped to T/4");
-        VWITNESS(ts == TSPAN * 4 && (int64_t)t_last - (int64_t)t_first > TSPAN * 4, "long timespan clamped to 4T");
-        VWITNESS(ts > TSPAN / 4 && ts < TSPAN * 4 && ts != TSPAN, "unclamped timespan");
-    }
-    // every required difficulty is accepted by the presync transition check at a retarget height
-    const int64_t h = IV * (int64_t)nondet_range(0, 1000);
-    VASSERT(PermittedDifficultyTransition(p, h, prev_nbits, got), "PermittedDifficultyTransition accepts the computed required bits at a retarget height");
-    VREACH("end");
-}
-
-// PermittedDifficultyTransition against its specification: always true on min-difficulty chains; off retarget heights iff unchanged;
-// at retarget heights iff  round(min(old/4, L)) <= target(new) <= round(min(old*4, L))  where round = decode(encode(.)).
-extern "C" void h_permitted()
-{
-    config_checks();
-    const Consensus::Params p = make_params();
-    W oldv;
-    const uint32_t old_nbits = draw_old_nbits(&oldv);
-    const uint32_t new_nbits = nondet_u32();
-    const int64_t h = (int64_t)nondet_range(0, INT_MAX);
-    const bool got = PermittedDifficultyTransition(p, h, old_nbits, new_nbits);
-    verif_observe(got);
-    if (ALLOW_MIN) {
-        VASSERT(got, "min-difficulty chains: every transition permitted");
-    } else if (h % IV != 0) {
-        VASSERT(got == (old_nbits == new_nbits), "off retarget heights: permitted iff bits unchanged");
-        VWITNESS(got, "unchanged bits permitted off retarget height");
-        VWITNESS(!got, "changed bits rejected off retarget height");
-    } else {
-        // old*4T/T = 4*old and old*(T/4)/T = floor(old/4) exactly (no wrap: config_checks); then clamp to L and round through the compact form
-        uint8_t lim[32]; limit_bytes(lim);
-        const RefTarget nt = ref_decode_compact(new_nbits);          // the check ignores sign/overflow flags of the new bits: value mod 2^256
-        // U = round(min(4*old, L)), D = round(min(floor(old/4), L)), round(x) = decode(encode(x)) (keeps the top three bytes)
-        uint8_t o[32], x4[32], d4[32];
-        for (int i = 0; i < 32; i++) o[i] = ref_decode_compact(old_nbits).b[i];
-        unsigned carry = 0;
-        for (int i = 0; i < 32; i++) { const unsigned v = ((unsigned)o[i] << 2) | carry; x4[i] = (uint8_t)v; carry = v >> 8; }
-        if (carry != 0 || ref_cmp256(x4, lim) > 0) for (int i = 0; i < 32; i++) x4[i] = lim[i];
-        for (int i = 0; i < 32; i++) d4[i] = (uint8_t)((o[i] >> 2) | ((i + 1 < 32 ? o[i + 1] : 0) << 6));
-        if (ref_cmp256(d4, lim) > 0) for (int i = 0; i < 32; i++) d4[i] = lim[i];
-        const RefTarget U = ref_decode_compact(ref_encode_compact(x4, false)), D = ref_decode_compact(ref_encode_compact(d4, false));
-        const bool want = ref_cmp256(nt.b, U.b) <= 0 && ref_cmp256(D.b, nt.b) <= 0;
-        VASSERT(got == want, "retarget height: permitted iff new target within [round(old/4), round(min(4*old, powLimit))]");
-        VWITNESS(got && new_nbits != old_nbits, "a changed target is permitted");
-        VWITNESS(!got && ref_cmp256(nt.b, U.b) > 0, "too-easy target rejected");
-        VWITNESS(!got && ref_cmp256(D.b, nt.b) > 0, "too-hard target rejected");
-        VWITNESS(got && ref_cmp256(nt.b, U.b) == 0, "exactly 4x easier (rounded) permitted");
-        VWITNESS(got && ref_cmp256(nt.b, D.b) == 0, "exactly 4x harder (rounded) permitted");
-    }
-    VREACH("end");
-}
